@@ -18,7 +18,7 @@ Task: make a small source change to the library (under {wt}/lib/src) that breaks
   (2) the existing test suite still passes: run `cd {wt} && CARGO_TARGET_DIR={wt}/target cargo test -p opcua --lib --offline` (about 370 tests; the sandbox has no network, always pass --offline). All tests that pass before your change must still pass after it.
 The change should be the kind of regression a real developer could introduce (a refactor gone wrong, an off-by-one, a dropped check, a reordered statement, a wrong field or operator, a missing call on one path, two sites that each look fine alone). It must need something specific to manifest - a particular input, interleaving, multi-step sequence of operations, fault at a particular point or unusual configuration - not something ordinary use would expose at once. Do not add dead code, comments announcing the bug, or new obviously-suspicious helper names. Keep it minimal (usually 1-15 changed lines).
 
-Also write a demonstration: a new Rust test (add it as a new `#[test]` in an existing test module of the crate, or a new file under lib/src/.../tests wired in with `mod`) that FAILS (or panics / hangs with a timeout you implement) with your change and PASSES on the original code. Verify both directions yourself by running it with and without your change (use `git stash` / `git apply -R`).
+Also write a demonstration: a new Rust test (add it as a new `#[test]` in an existing test module of the crate, or a new file under lib/src/.../tests wired in with `mod`) that FAILS (or panics / hangs with a timeout you implement) with your change and PASSES on the original code. Verify both directions yourself by running it with and without your change (save your change with `git diff > file` and undo it with `git apply -R file`; NEVER use `git stash`: the stash is shared between all worktrees of this repository and other engineers are working in sibling worktrees).
 
 Deliver, in {wt}/out/:
   - patch.diff : `git diff` of ONLY the breaking change (no test), relative to the worktree's HEAD, so that `git apply patch.diff` works on a clean checkout
